@@ -143,13 +143,15 @@ def asan_unit(name, harness, cases, args=(), shards=16, **kw):
 
 prop("C14",
      fuzz=dict(prop=14, workers=8, seconds=120),
-     units=lambda tier: [Unit("c14", "c14.cpp", SHIPPED, cases=scale(tier, 20000, 400000), shards=12),
-                         asan_unit("c14-asan", "c14.cpp", scale(tier, 3000, 80000), args=["--heap", "1"], shards=4 if tier == "quick" else 16)],
+     units=lambda tier: [Unit("c14", ["c14.cpp", "mon_alloc.c"], LibCfg(name="shipped+allocmon", alloc_redirect=True), cases=scale(tier, 20000, 400000), shards=12),
+                         Unit("c14-asan", ["c14.cpp", "mon_alloc.c"], LibCfg(name="asan+allocmon", cc="gcc", opt="-O1", cflags=ASAN_FLAGS, alloc_redirect=True),
+                              cases=scale(tier, 3000, 80000), shards=4 if tier == "quick" else 16, link_flags=["-fsanitize=address,undefined"], env=ASAN_ENV, args=["--heap", "1"])],
      level="exploration",
      rule=("histories on one object (CTR / parallel-ECB of each cipher on each back end; caller-owned Skinny / tweaked / Mantis "
            "schedules) with invalid calls injected at random positions: NULL object, NULL key, key length in {0, bs-1, max+1, "
            "huge}, tweak length {0, bs+1, huge} / Mantis != 8, counter length > bs, Mantis rounds outside 5..8, ragged byte counts "
-           "(parallel), NULL data pointers (CTR, also with size 0), any call on a zeroed or cleaned-up object; oracles: injected "
+           "(parallel), NULL data pointers (CTR, also with size 0), any call on a zeroed, cleaned-up or failed-to-initialise object (12 % "
+           "of the init calls run with their allocation failing, through the allocator monitor); oracles: injected "
            "call returns 0 and leaves output buffer and schedule image untouched, every other record equals the twin history "
            "without injections, API model agrees (valid calls return 1), guard zones / ASan silent; non-trivial = an injected "
            "call is followed by an output-producing valid call"),
@@ -178,7 +180,7 @@ prop("C15",
      units=lambda tier: mon_units("c15", "c15.cpp", tier, 15000, 300000),
      level="exploration",
      rule=("multi-object life-cycle histories (1-6 slots of the six object kinds on every back end, 4-60 calls): init, key / "
-           "tweak / counter set-up, processing, cleanup, repeated cleanup, cleanup of NULL and of a zeroed never-initialised "
+           "tweak / counter set-up, processing, init calls whose allocation fails (12 %), cleanup, repeated cleanup, cleanup of NULL and of a zeroed never-initialised "
            "object, any call after cleanup, re-init and reuse; after every call the allocator monitor's live set must equal the "
            "set of initialised, not yet cleaned objects (one block each), no double / foreign free, calls after cleanup return "
            "0 (API model), nothing live at the end; non-trivial = history has a re-init after cleanup, a use after cleanup and "
